@@ -58,6 +58,10 @@ def collect_traces(ctx, focus, total, tag, agg, chunk=250, race=False, runner=No
         if not crashed and not blocked and n >= 5:
             per = (_time.time() - _t0) / n
             agg["per_scenario_s"] = min(agg.get("per_scenario_s", per), per)
+        elif blocked and blocked.get("seed") is not None and blocked["seed"] - (base + done) >= 3:
+            # the scenarios before the blocked one ran normally: the 10 s (5 s) of the blocked one aside, how long did they take?
+            per = max(0.0, _time.time() - _t0 - 10.0) / (blocked["seed"] - (base + done))
+            agg["per_scenario_s"] = min(agg.get("per_scenario_s", per), per)
         traces.append(trace)
         if crashed:
             agg["crashes"] += 1
